@@ -234,12 +234,23 @@ def replay_file(chk: Check):
         from .. import trace_core
         sub = Check(chk.pid, chk.level, argv=[])
         sub.seed = rp.get("seed", 0)
-        trace_core.validate(sub, 0, cases=[rp["case"]])
+        trace_core.validate(sub, 0, cases=[rp["case"]], second=1.0 if rp.get("second") else 0.0)
         print(rp["module"])
         for v in sub.violations:
             print("MISMATCH", json.dumps(v["sig"]), str(v["replay"].get("tlc"))[:600])
         print("reproduced" if sub.violations else "not reproduced")
         return 1 if sub.violations else 0
+    if rp.get("kind") == "seqedit-case":
+        from .. import seqedit_replay
+        mism, info, text, new = seqedit_replay.replay_one(rp["case"], rp["seed"])
+        print(text)
+        print("--- after apply_all")
+        print(new)
+        mine = [m for m in mism if chk.pid in m["props"]]
+        for m in mine:
+            print("MISMATCH", json.dumps(m)[:2000])
+        print("reproduced" if mine else "not reproduced")
+        return 1 if mine else 0
     if rp.get("kind") == "partial-case":
         from .. import partial_replay
         mism, info, text, new = partial_replay.replay_one(rp["case"], rp["seed"])
